@@ -597,3 +597,22 @@ def gen_wf_program(rng):
     if rng.random() < 0.5:
         p = permute(p, rng)
     return p, {"missing": missing}
+
+
+# ---------------------------------------------------------------------------------------
+# Coq evaluation that survives a concurrent rebuild of a dependency (.vo files are shared
+# between the builders' runs): rebuild our targets and retry once
+# ---------------------------------------------------------------------------------------
+
+def coq_codes_retry(ctx, tag, defs, exprs, imports, targets, shard=40):
+    from . import core, logic
+    for attempt in range(3):
+        codes, failures = logic.coq_codes(ctx.work, tag, defs, exprs, shard=shard, imports=imports)
+        if not failures:
+            return codes
+        if "inconsistent assumptions" in failures[0][1] or "Cannot find a physical path" in failures[0][1] or "bad version" in failures[0][1]:
+            core.log("coq libraries changed under us; rebuilding %s and retrying" % (targets,))
+            core.coq_make(targets)
+            continue
+        break
+    raise core.CheckFailure("coq evaluation failed: %s" % (failures[0],))
